@@ -1,4 +1,5 @@
 import OntVerif.Proofs.Migrate
+import OntVerif.Props.C04
 /-! C44, second part: the migration / destruction theorems in terms of `CacheDB.Get`, and the invariants behind
 "a destroyed address is never deployed or written again". -/
 namespace OntVerif.Proofs.Migrate
@@ -111,5 +112,372 @@ theorem clean_full (track : Nat) (c : Cache) (inv : Inv c) (addr : Bytes) (h : N
     rw [h6]; split
     · exact leBytes4_ne_nil h
     · exact hd
+
+/-! ### never again -/
+
+/-- `a` stays marked destroyed and no storage value appears or changes under it -/
+def Keeps (a : Bytes) (c c' : Cache) : Prop :=
+  Inv c' ∧ isDestroyed c' a = true ∧
+    ∀ k, a <+: k → c'.get stStorage k = c.get stStorage k ∨ c'.get stStorage k = []
+
+theorem keeps_refl {a : Bytes} {c : Cache} (inv : Inv c) (hd : isDestroyed c a = true) : Keeps a c c :=
+  ⟨inv, hd, fun _ _ => Or.inl rfl⟩
+
+theorem keeps_trans {a : Bytes} {c c' c'' : Cache} (h1 : Keeps a c c') (h2 : Keeps a c' c'') : Keeps a c c'' := by
+  refine ⟨h2.1, h2.2.1, fun k hk => ?_⟩
+  rcases h2.2.2 k hk with h | h
+  · rw [h]; exact h1.2.2 k hk
+  · exact Or.inr h
+
+/-- a cache that reads like `c` except that some keys outside the marker of `a` changed, none of them gaining a value under `a` -/
+theorem keeps_of_reads {a : Bytes} {c c' : Cache} (inv' : Inv c') (hd : isDestroyed c a = true)
+    (h6 : c'.read (stDestroyed :: a) = c.read (stDestroyed :: a) ∨ c'.read (stDestroyed :: a) ≠ [])
+    (h5 : ∀ k, a <+: k → c'.read (stStorage :: k) = c.read (stStorage :: k) ∨ c'.read (stStorage :: k) = []) :
+    Keeps a c c' := by
+  refine ⟨inv', ?_, h5⟩
+  rw [isDestroyed_iff] at hd ⊢
+  rcases h6 with h | h
+  · rw [h]; exact hd
+  · exact h
+
+theorem not_under_of_ne {a b : Bytes} (ha : a.length = 20) (hb : b.length = 20) (hne : b ≠ a) (x k : Bytes)
+    (hk : a <+: k) : k ≠ b ++ x := by
+  intro he; rw [he] at hk
+  exact hne (prefix_append_eq hk (by omega)).symm
+
+theorem keeps_put5 {a : Bytes} {c : Cache} (inv : Inv c) (hd : isDestroyed c a = true) (key : Bytes) (v : Val)
+    (hn : ¬ a <+: key) : Keeps a c (c.put stStorage key v) := by
+  apply keeps_of_reads (inv_cput inv _ _ _) hd
+  · left; rw [read_cput c inv.tx, if_neg (cons_ne_of_head_ne _ _ (by decide))]
+  · intro k hk; left
+    rw [read_cput c inv.tx, if_neg]
+    intro he; exact hn (by rw [← (List.cons.inj he).2]; exact hk)
+
+theorem keeps_del5 {a : Bytes} {c : Cache} (inv : Inv c) (hd : isDestroyed c a = true) (key : Bytes) :
+    Keeps a c (c.delete stStorage key) := by
+  apply keeps_of_reads (inv_cdel inv _ _) hd
+  · left; rw [read_cdel c inv.tx, if_neg (cons_ne_of_head_ne _ _ (by decide))]
+  · intro k _
+    rw [read_cdel c inv.tx]
+    split
+    · exact Or.inr rfl
+    · exact Or.inl rfl
+
+theorem keeps_putContract {a : Bytes} {c : Cache} (inv : Inv c) (hd : isDestroyed c a = true) (addr val : Bytes) :
+    Keeps a c (putContract c addr val) := by
+  unfold putContract
+  apply keeps_of_reads (inv_cput inv _ _ _) hd
+  · left; rw [read_cput c inv.tx, if_neg (cons_ne_of_head_ne _ _ (by decide))]
+  · intro k _; left; rw [read_cput c inv.tx, if_neg (cons_ne_of_head_ne _ _ (by decide))]
+
+theorem keeps_setDestroyed {a : Bytes} {c : Cache} (inv : Inv c) (hd : isDestroyed c a = true) (track : Nat) (addr : Bytes) (h : Nat) :
+    Keeps a c (setDestroyed track c addr h) := by
+  apply keeps_of_reads (inv_setDestroyed inv _ _ _) hd
+  · rw [read_setDestroyed track c inv.tx]
+    split
+    · exact Or.inr (leBytes4_ne_nil h)
+    · exact Or.inl rfl
+  · intro k _; left
+    rw [read_setDestroyed track c inv.tx, if_neg (fun hh => cons_ne_of_head_ne k addr (by decide) hh.1)]
+
+theorem keeps_unsetDestroyed {a : Bytes} {c : Cache} (inv : Inv c) (hd : isDestroyed c a = true) (track : Nat) (addr : Bytes) (h : Nat)
+    (hne : addr ≠ a) : Keeps a c (unsetDestroyed track c addr h) := by
+  unfold unsetDestroyed
+  split
+  · apply keeps_of_reads (inv_cdel inv _ _) hd
+    · left; rw [read_cdel c inv.tx, if_neg]
+      intro he; exact hne (List.cons.inj he).2.symm
+    · intro k _; left; rw [read_cdel c inv.tx, if_neg (cons_ne_of_head_ne _ _ (by decide))]
+  · exact keeps_refl inv hd
+
+theorem keeps_migrate {a : Bytes} {c : Cache} (inv : Inv c) (hd : isDestroyed c a = true) (ha : a.length = 20)
+    (track : Nat) (self addr : Bytes) (h : Nat) (hs : self.length = 20) (hn : addr.length = 20) (hne : addr ≠ a) :
+    Keeps a c (migrate track c self addr h) := by
+  rw [isDestroyed_iff] at hd
+  have h6c0 : (deleteContract track c self h).read (stDestroyed :: a) ≠ [] := by
+    rw [read_deleteContract track c inv.tx]
+    split
+    · exact leBytes4_ne_nil h
+    · rw [if_neg (cons_ne_of_head_ne _ _ (by decide))]; exact hd
+  have h5c0 : ∀ t, (deleteContract track c self h).read (stStorage :: t) = c.read (stStorage :: t) := by
+    intro t
+    rw [read_deleteContract track c inv.tx, if_neg (fun hh => cons_ne_of_head_ne t self (by decide) hh.1),
+      if_neg (cons_ne_of_head_ne t self (by decide))]
+  obtain ⟨i, _, fr⟩ := migrate_frame track c inv self addr h hs hn
+  have hmark : (migrate track c self addr h).read (stDestroyed :: a) ≠ [] := by
+    rw [fr _ (not_prefix_of_head_ne _ _ (by decide)) (not_prefix_of_head_ne _ _ (by decide))]; exact h6c0
+  refine ⟨i, (isDestroyed_iff _ _).mpr hmark, ?_⟩
+  intro k hk
+  by_cases hsa : self = a
+  · subst hsa
+    right
+    exact (migrate_spec track c inv self addr h hs hn (fun he => hne he.symm)).2.2.2.1 k hk
+  · left
+    show (migrate track c self addr h).read (stStorage :: k) = c.read (stStorage :: k)
+    rw [fr, h5c0]
+    · intro hp; rw [List.cons_prefix_cons] at hp
+      obtain ⟨t, ht⟩ := hp.2
+      exact not_under_of_ne ha hs hsa t k hk ht.symm
+    · intro hp; rw [List.cons_prefix_cons] at hp
+      obtain ⟨t, ht⟩ := hp.2
+      exact not_under_of_ne ha hn hne t k hk ht.symm
+
+theorem keeps_clean {a : Bytes} {c : Cache} (inv : Inv c) (hd : isDestroyed c a = true) (ha : a.length = 20)
+    (track : Nat) (self : Bytes) (h : Nat) (hs : self.length = 20) :
+    Keeps a c (clean track c self h) := by
+  obtain ⟨c1, _, c3, _, _, _, _, c8⟩ := clean_full track c inv self h
+  have inv0 := inv_deleteContract inv track self h
+  obtain ⟨_, _, _, r2⟩ := cleanData_spec (deleteContract track c self h) inv0 self
+  rw [isDestroyed_iff] at hd
+  have hmark : (clean track c self h).read (stDestroyed :: a) ≠ [] := by
+    unfold clean
+    rw [r2 _ (not_prefix_of_head_ne _ _ (by decide)), read_deleteContract track c inv.tx]
+    split
+    · exact leBytes4_ne_nil h
+    · rw [if_neg (cons_ne_of_head_ne _ _ (by decide))]; exact hd
+  refine ⟨c8, (isDestroyed_iff _ _).mpr hmark, ?_⟩
+  intro k hk
+  by_cases hsa : self = a
+  · subst hsa; right; exact c1 k hk
+  · left
+    apply c3
+    intro hp
+    obtain ⟨t, ht⟩ := hp
+    exact not_under_of_ne ha hs hsa t k hk ht.symm
+
+theorem isPresent_ne_destroyed {c : Cache} {a x : Bytes} (hd : isDestroyed c a = true) (hp : isPresent c x = true) : x ≠ a := by
+  intro he; subst he
+  unfold isPresent getContract at hp
+  simp [hd] at hp
+
+theorem absent_ne_destroyed {c : Cache} {a x : Bytes} (hd : isDestroyed c a = true) (hp : getContract c x = .absent) : x ≠ a := by
+  intro he; subst he
+  unfold getContract at hp
+  simp [hd] at hp
+
+/-- one service call: unless it is a storage write in the name of `a` on the unchecked (as shipped) path, or the operator's
+`removeDestroyedContract(a)`, the address stays destroyed and nothing is written under it -/
+theorem sys_keeps (v : Variant) (track h : Nat) (c : Cache) (inv : Inv c) (a : Bytes) (ha : a.length = 20)
+    (hd : isDestroyed c a = true) (s : Sys) (wf : s.WF) (hnr : s ≠ .removeDestroyed a)
+    (hv : v = .sound ∨ ¬ s.writesAs a) (c' : Cache) (hrun : (s.run v track h c).cache? = some c') :
+    Keeps a c c' := by
+  have ctxne : ∀ ctx : Bytes, (v = .sound ∨ ctx ≠ a) → ¬ ((v = .sound && !isPresent c ctx) = true) → ctx ≠ a := by
+    intro ctx hor hchk
+    rcases hor with hvs | hne
+    · subst hvs
+      have : isPresent c ctx = true := by simpa using hchk
+      exact isPresent_ne_destroyed hd this
+    · exact hne
+  cases s with
+  | neoPut ctx k val =>
+    by_cases h1 : (v = .sound && !isPresent c ctx) = true
+    · simp [Sys.run, h1, Outcome.cache?] at hrun
+    · by_cases h2 : k.length > 1024
+      · simp [Sys.run, h1, h2, Outcome.cache?] at hrun
+      · simp [Sys.run, h1, h2, Outcome.cache?] at hrun
+        subst hrun
+        apply keeps_put5 inv hd
+        intro hp
+        have hne := ctxne ctx (hv.imp id id) h1
+        exact hne (prefix_append_eq hp (by have : ctx.length = 20 := wf; omega)).symm
+  | neoDelete ctx k =>
+    by_cases h1 : (v = .sound && !isPresent c ctx) = true
+    · simp [Sys.run, h1, Outcome.cache?] at hrun
+    · simp [Sys.run, h1, Outcome.cache?] at hrun
+      subst hrun
+      exact keeps_del5 inv hd _
+  | neoCreate addr val =>
+    cases hg : getContract c addr with
+    | absent =>
+      simp [Sys.run, hg, Outcome.cache?] at hrun
+      subst hrun; exact keeps_putContract inv hd _ _
+    | destroyed =>
+      simp [Sys.run, hg, Outcome.cache?] at hrun
+      subst hrun; exact keeps_refl inv hd
+    | present w =>
+      simp [Sys.run, hg, Outcome.cache?] at hrun
+      subst hrun; exact keeps_refl inv hd
+  | neoMigrate self addr val =>
+    cases hg : getContract c addr with
+    | absent =>
+      simp [Sys.run, hg, Outcome.cache?] at hrun
+      subst hrun
+      have hne : addr ≠ a := absent_ne_destroyed hd hg
+      have k1 := keeps_putContract inv hd addr val
+      exact keeps_trans k1 (keeps_migrate k1.1 k1.2.1 ha track self addr h wf.1 wf.2 hne)
+    | destroyed => simp [Sys.run, hg, Outcome.cache?] at hrun
+    | present w => simp [Sys.run, hg, Outcome.cache?] at hrun
+  | neoDestroy self =>
+    by_cases h1 : isPresent c self = true
+    · simp [Sys.run, h1, Outcome.cache?] at hrun
+      subst hrun
+      exact keeps_clean inv hd ha track self h wf
+    · simp [Sys.run, h1, Outcome.cache?] at hrun
+  | appCall addr =>
+    by_cases h1 : isPresent c addr = true
+    · simp [Sys.run, h1, Outcome.cache?] at hrun
+      subst hrun; exact keeps_refl inv hd
+    · simp [Sys.run, h1, Outcome.cache?] at hrun
+  | wasmWrite self k val =>
+    by_cases h1 : (v = .sound && !isPresent c self) = true
+    · simp [Sys.run, h1, Outcome.cache?] at hrun
+    · simp [Sys.run, h1, Outcome.cache?] at hrun
+      subst hrun
+      apply keeps_put5 inv hd
+      intro hp
+      have hne := ctxne self (hv.imp id id) h1
+      exact hne (prefix_append_eq hp (by have : self.length = 20 := wf; omega)).symm
+  | wasmDelete self k =>
+    by_cases h1 : (v = .sound && !isPresent c self) = true
+    · simp [Sys.run, h1, Outcome.cache?] at hrun
+    · simp [Sys.run, h1, Outcome.cache?] at hrun
+      subst hrun
+      exact keeps_del5 inv hd _
+  | wasmCreate addr val =>
+    cases hg : getContract c addr with
+    | absent =>
+      simp [Sys.run, hg, Outcome.cache?] at hrun
+      subst hrun; exact keeps_putContract inv hd _ _
+    | destroyed => simp [Sys.run, hg, Outcome.cache?] at hrun
+    | present w => simp [Sys.run, hg, Outcome.cache?] at hrun
+  | wasmMigrate self addr val =>
+    cases hg : getContract c addr with
+    | absent =>
+      simp [Sys.run, hg, Outcome.cache?] at hrun
+      subst hrun
+      have hne : addr ≠ a := absent_ne_destroyed hd hg
+      have k1 := keeps_putContract inv hd addr val
+      exact keeps_trans k1 (keeps_migrate k1.1 k1.2.1 ha track self addr h wf.1 wf.2 hne)
+    | destroyed => simp [Sys.run, hg, Outcome.cache?] at hrun
+    | present w => simp [Sys.run, hg, Outcome.cache?] at hrun
+  | wasmDestroy self =>
+    simp [Sys.run, Outcome.cache?] at hrun
+    subst hrun
+    exact keeps_clean inv hd ha track self h wf
+  | addDestroyed addr =>
+    simp [Sys.run, Outcome.cache?] at hrun
+    subst hrun
+    exact keeps_setDestroyed inv hd track addr h
+  | removeDestroyed addr =>
+    simp [Sys.run, Outcome.cache?] at hrun
+    subst hrun
+    exact keeps_unsetDestroyed inv hd track addr h (fun he => hnr (by rw [he]))
+
+theorem runCalls_cons (v : Variant) (track h : Nat) (c : Cache) (s : Sys) (r : List Sys) :
+    runCalls v track h c (s :: r) =
+      match (s.run v track h c).cache? with
+      | some c' => runCalls v track h c' r
+      | none => none := by
+  simp only [runCalls]
+  cases s.run v track h c <;> rfl
+
+theorem runCalls_keeps (v : Variant) (track h : Nat) (a : Bytes) (ha : a.length = 20) :
+    ∀ (calls : List Sys) (c : Cache), Inv c → isDestroyed c a = true →
+      (∀ s ∈ calls, s.WF ∧ s ≠ .removeDestroyed a ∧ (v = .sound ∨ ¬ s.writesAs a)) →
+      ∀ c', runCalls v track h c calls = some c' → Keeps a c c' := by
+  intro calls
+  induction calls with
+  | nil =>
+    intro c inv hd _ c' hr
+    simp only [runCalls, Option.some.injEq] at hr
+    subst hr; exact keeps_refl inv hd
+  | cons s r ih =>
+    intro c inv hd hall c' hr
+    rw [runCalls_cons] at hr
+    cases hc : (s.run v track h c).cache? with
+    | none => rw [hc] at hr; simp at hr
+    | some c1 =>
+      rw [hc] at hr
+      obtain ⟨w1, w2, w3⟩ := hall s (by simp)
+      have k1 := sys_keeps v track h c inv a ha hd s w1 w2 w3 c1 hc
+      exact keeps_trans k1 (ih c1 k1.1 k1.2.1 (fun x hx => hall x (by simp [hx])) c' hr)
+
+/-- block-overlay level: the marker of `a` is committed and no storage value appears or changes under `a` -/
+def KeepsB (a : Bytes) (c c' : Cache) : Prop :=
+  Inv c' ∧ c'.backend.get (stDestroyed :: a) ≠ [] ∧
+    ∀ k, a <+: k → c'.backend.get (stStorage :: k) = c.backend.get (stStorage :: k) ∨ c'.backend.get (stStorage :: k) = []
+
+theorem keepsB_trans {a : Bytes} {c c' c'' : Cache} (h1 : KeepsB a c c') (h2 : KeepsB a c' c'') : KeepsB a c c'' := by
+  refine ⟨h2.1, h2.2.1, fun k hk => ?_⟩
+  rcases h2.2.2 k hk with h | h
+  · rw [h]; exact h1.2.2 k hk
+  · exact Or.inr h
+
+theorem reset_facts (c : Cache) (inv : Inv c) :
+    Inv c.reset ∧ c.reset.backend = c.backend ∧ ∀ q, c.reset.read q = c.backend.get q :=
+  ⟨step_inv inv .reset, rfl, fun q => (OntVerif.Props.C04.C04_reset c q).1⟩
+
+theorem commit_facts (c : Cache) (inv : Inv c) :
+    Inv c.commit ∧ ∀ q, c.commit.backend.get q = c.read q :=
+  ⟨step_inv inv .commit, fun q => (OntVerif.Props.C04.C04_commit c inv q).1⟩
+
+theorem keepsB_of_backend {a : Bytes} {c c' : Cache} (inv' : Inv c') (hm : c.backend.get (stDestroyed :: a) ≠ [])
+    (h : ∀ q, c'.backend.get q = c.backend.get q) : KeepsB a c c' :=
+  ⟨inv', by rw [h]; exact hm, fun k _ => Or.inl (h _)⟩
+
+theorem tx_keeps (v : Variant) (track : Nat) (c : Cache) (inv : Inv c) (a : Bytes) (ha : a.length = 20)
+    (hm : c.backend.get (stDestroyed :: a) ≠ []) (t : Tx) (wf : t.WF) (hnr : t.noRemove a)
+    (hv : v = .sound ∨ t.noWriteAs a) : KeepsB a c (t.run v track c).1 := by
+  obtain ⟨inv0, hb0, hr0⟩ := reset_facts c inv
+  have hd0 : isDestroyed c.reset a = true := by rw [isDestroyed_iff, hr0]; exact hm
+  cases t with
+  | invoke h calls =>
+    simp only [Tx.run]
+    cases hc : runCalls v track h c.reset calls with
+    | none => exact keepsB_of_backend inv0 hm (fun q => by rw [hb0])
+    | some c' =>
+      have hk := runCalls_keeps v track h a ha calls c.reset inv0 hd0
+        (fun s hs => ⟨wf s hs, hnr s hs, hv.imp id (fun hw => hw s hs)⟩) c' hc
+      obtain ⟨ic, hcg⟩ := commit_facts c' hk.1
+      refine ⟨ic, ?_, ?_⟩
+      · rw [hcg]; exact (isDestroyed_iff _ _).mp hk.2.1
+      · intro k hk'
+        rw [hcg]
+        rcases hk.2.2 k hk' with h1 | h1
+        · left; rw [← hr0]; exact h1
+        · right; exact h1
+  | deploy h addr val =>
+    simp only [Tx.run]
+    cases hg : getContract c.reset addr with
+    | destroyed => exact keepsB_of_backend inv0 hm (fun q => by rw [hb0])
+    | present w =>
+      obtain ⟨ic, hcg⟩ := commit_facts c.reset inv0
+      exact keepsB_of_backend ic hm (fun q => by rw [hcg, hr0])
+    | absent =>
+      have hne : addr ≠ a := absent_ne_destroyed hd0 hg
+      have i1 : Inv (putContract c.reset addr val) := inv_cput inv0 _ _ _
+      obtain ⟨ic, hcg⟩ := commit_facts _ i1
+      refine ⟨ic, ?_, ?_⟩
+      · rw [hcg]; unfold putContract
+        rw [read_cput _ inv0.tx, if_neg (cons_ne_of_head_ne _ _ (by decide)), hr0]; exact hm
+      · intro k _; left
+        rw [hcg]; unfold putContract
+        rw [read_cput _ inv0.tx, if_neg (cons_ne_of_head_ne _ _ (by decide)), hr0]
+  | blockCommit =>
+    simp only [Tx.run]
+    exact keepsB_of_backend (step_inv inv _) hm (fun q => (OntVerif.Props.C04.C04_block_commit c inv false q).2.1)
+
+theorem runTxs_keeps (v : Variant) (track : Nat) (a : Bytes) (ha : a.length = 20) :
+    ∀ (txs : List Tx) (c : Cache), Inv c → c.backend.get (stDestroyed :: a) ≠ [] →
+      (∀ t ∈ txs, t.WF ∧ t.noRemove a ∧ (v = .sound ∨ t.noWriteAs a)) →
+      KeepsB a c (runTxs v track c txs) := by
+  intro txs
+  induction txs with
+  | nil => intro c inv hm _; exact ⟨inv, hm, fun _ _ => Or.inl rfl⟩
+  | cons t r ih =>
+    intro c inv hm hall
+    obtain ⟨w1, w2, w3⟩ := hall t (by simp)
+    have k1 := tx_keeps v track c inv a ha hm t w1 w2 w3
+    have k2 := ih (t.run v track c).1 k1.1 k1.2.1 (fun x hx => hall x (by simp [hx]))
+    exact keepsB_trans k1 k2
+
+/-- a deploy transaction for an address whose destroyed marker is committed is refused and changes nothing -/
+theorem deploy_refused (v : Variant) (track : Nat) (c : Cache) (inv : Inv c) (a : Bytes)
+    (hm : c.backend.get (stDestroyed :: a) ≠ []) (h : Nat) (val : Bytes) :
+    ((Tx.deploy h a val).run v track c).2 = .err ∧ ((Tx.deploy h a val).run v track c).1 = c.reset := by
+  obtain ⟨_, _, hr0⟩ := reset_facts c inv
+  have hd0 : isDestroyed c.reset a = true := by rw [isDestroyed_iff, hr0]; exact hm
+  have : getContract c.reset a = .destroyed := by unfold getContract; simp [hd0]
+  simp [Tx.run, this]
 
 end OntVerif.Proofs.Migrate
